@@ -256,6 +256,10 @@ def _compare(c, tag, wid, mjm, mjd, P, V, mask, static, exclude, dist, gid, nrm,
         qual = ":ref_hits_hfield_base_box"  # a face of the hfield's base/side box (axis-aligned local normal), not a surface triangle
     if not qual and g0 >= 0 and int(mjm.geom_type[g0]) == 7 and _on_mesh_edge(mjm, mjd, g0, P[r] + d0 * V[r]):
       qual = ":ref_hit_on_triangle_edge"  # the hit point lies on an edge shared by two (coplanar) triangles
+    if not qual and g0 >= 0 and int(mjm.geom_type[g0]) == 3 and gid[r] < 0:
+      zl = float((mjd.geom_xmat[g0].reshape(3, 3).T @ (P[r] + d0 * V[r] - mjd.geom_xpos[g0]))[2])
+      if abs(abs(zl) - float(mjm.geom_size[g0][1])) <= 2e-6:
+        qual = ":ref_hit_on_capsule_seam"  # the hit point lies on the circle where the cylinder meets a cap (smooth surface, no boundary)
     if g0 < 0 and gid[r] >= 0 and int(mjm.geom_type[gid[r]]) in (1, 7) and abs(float(np.dot(nrm[r], V[r]))) < 1e-5 * np.linalg.norm(V[r]):
       qual = ":got_triangle_coplanar_with_ray"
     vk = f"{tag}:{kind}:ref_geomtype={gt}:got_geomtype={wt}{qual}{vsuffix}{unit}"
